@@ -82,6 +82,33 @@ pub proof fn lemma_rloop_step(pre: RLoop, post: RLoop, seq0: int, avail0: int, s
         }
     }
 }
+/// one loop step keeps "everything carried names a queued message of the right kind"
+pub proof fn lemma_rloop_step_carried(pre: Seq<Packet>, post: Seq<Packet>, pre_small: Seq<(u64, Bytes)>, post_small: Seq<(u64, Bytes)>, seq: int, channel: u8,
+    id: u64, um: UnackedMessage, now: Duration, resend: Duration, m: Map<u64, UnackedMessage>)
+    requires
+        all_carried_ok(pre, m), batch_ids_small(pre_small, m),
+        rnew_pkts_ok(pre, post, seq, channel, id, um, now, resend, pre_small),
+        m.contains_key(id), same_kind(um, m[id]),
+        post_small == pre_small
+            || (um is Small && post_small.len() >= 1 && post_small.last().0 == id && (post_small.drop_last() == pre_small || post_small.len() == 1)),
+    ensures all_carried_ok(post, m), batch_ids_small(post_small, m),
+{
+    reveal(rnew_pkts_ok);
+    assert forall|i: int| 0 <= i < post.len() implies carried_ok(#[trigger] post[i], m) by {
+        if i < pre.len() {
+            assert(post.subrange(0, pre.len() as int)[i] == post[i]);
+            assert(post[i] == pre[i]);
+        }
+    }
+    assert forall|j: int| 0 <= j < post_small.len() implies m.contains_key((#[trigger] post_small[j]).0) && m[post_small[j].0] is Small by {
+        if post_small != pre_small {
+            if j < post_small.len() - 1 {
+                assert(post_small.len() != 1);
+                assert(post_small.drop_last()[j] == post_small[j]);
+            }
+        }
+    }
+}
 /// the packets one loop step appends are labelled with this channel's id (both disjuncts of rnew_pkts_ok say so)
 pub proof fn lemma_rloop_step_channel(pre: Seq<Packet>, post: Seq<Packet>, seq: int, channel: u8, id: u64, um: UnackedMessage, now: Duration, resend: Duration,
     pending: Seq<(u64, Bytes)>)
